@@ -87,6 +87,21 @@ func (eng *Engine) verifyFunc(fn *ssa.Function, con *Contract) (vc *VC) {
 	for _, fv := range fn.FreeVars {
 		bind(fv, fv.Name(), "freevar")
 	}
+	if con != nil && con.BindName != "" {
+		// case of a split on a plain parameter: the parameter IS the value (lets the generator prune dead branches)
+		for _, p := range fn.Params {
+			if p.Name() == con.BindName {
+				if sv, ok := top.vals[p]; ok && sv.P == nil {
+					env := top.env(st, st, nil)
+					if t, err := env.eval(con.BindVal); err == nil {
+						sv.T = t
+						top.vals[p] = sv
+						top.params[p.Name()] = sv
+					}
+				}
+			}
+		}
+	}
 	// entry snapshot: vc.entry keeps being the map that lazily receives first-touch declarations;
 	// the running state starts as a copy.
 	run := st.clone()
@@ -345,6 +360,7 @@ func (vc *VC) prelude() (string, error) {
 	}
 	seen := map[string]bool{}
 	var order []string
+	provided := map[string]bool{}
 	var visit func(use string) error
 	visit = func(use string) error {
 		if seen[use] {
@@ -355,6 +371,23 @@ func (vc *VC) prelude() (string, error) {
 		if err != nil {
 			// a library that exists only for the other reading is simply not part of this VC
 			return nil
+		}
+		// "; provides: X": several files may provide the same interface (defined vs. opaque view); the first one wins
+		for _, l := range strings.Split(text, "\n") {
+			if strings.HasPrefix(strings.TrimSpace(l), "; provides:") {
+				for _, p := range strings.Fields(strings.TrimPrefix(strings.TrimSpace(l), "; provides:")) {
+					if provided[p] {
+						return nil
+					}
+				}
+			}
+		}
+		for _, l := range strings.Split(text, "\n") {
+			if strings.HasPrefix(strings.TrimSpace(l), "; provides:") {
+				for _, p := range strings.Fields(strings.TrimPrefix(strings.TrimSpace(l), "; provides:")) {
+					provided[p] = true
+				}
+			}
 		}
 		for _, inc := range specIncludes(text) {
 			if err := visit(inc); err != nil {
@@ -369,9 +402,16 @@ func (vc *VC) prelude() (string, error) {
 		us = append(us, u)
 	}
 	sort.Strings(us)
-	// base first
+	// base first, then the contract's own libraries in the order it names them (they take precedence)
 	if err := visit("base"); err != nil {
 		return "", err
+	}
+	if vc.con != nil {
+		for _, u := range vc.con.Uses {
+			if err := visit(u); err != nil {
+				return "", err
+			}
+		}
 	}
 	for _, u := range us {
 		if err := visit(u); err != nil {
